@@ -330,6 +330,55 @@ def structPackFloat (len : Nat) (big : Bool) (p : Nat) : List Nat :=
 /-- `float2bitstore` (bitstore_helpers.py:238) on a float that is exactly representable at `length` bits. -/
 def float2bitstore (p : Nat) (len : Nat) (big : Bool) : Bits := bitsOfBytes (structPackFloat len big p)
 
+/-- Exponent and fraction widths of binary16 / binary32 / binary64. -/
+def fmtBits (len : Nat) : Nat × Nat := if len = 16 then (5, 10) else if len = 32 then (8, 23) else (11, 52)
+
+/-- `struct.pack('>e' | '>f' | '>d', x)` as a bit pattern, for the Python float `x` whose float64 pattern is `p64`:
+    IEEE round-to-nearest-even to the `len`-bit format (documented meaning of `struct`; trusted primitive, tied to
+    CPython by the correspondence run).  `none` = `OverflowError` (a finite `x` that rounds beyond the largest finite
+    value).  NaNs are outside the property. -/
+def roundF64 (len : Nat) (p64 : Nat) : Option Nat :=
+  let eb := (fmtBits len).1
+  let mb := (fmtBits len).2
+  let sgn := p64 / 2 ^ 63 % 2
+  let E := p64 / 2 ^ 52 % 2 ^ 11
+  let M := p64 % 2 ^ 52
+  let signBit := sgn * 2 ^ (eb + mb)
+  let infc := (2 ^ eb - 1) * 2 ^ mb
+  if E = 2047 then some (signBit + infc + (if M = 0 then 0 else 2 ^ (mb - 1))) else
+  let sig := if E = 0 then M else 2 ^ 52 + M
+  if sig = 0 then some signBit else
+  let ex : Int := ((if E = 0 then 1 else E : Nat) : Int) - 1075
+  let ue : Int := ex + (sig.log2 : Nat)
+  let B : Int := 2 ^ (eb - 1) - 1
+  let q : Int := max ue (1 - B) - (mb : Nat)
+  let n : Nat :=
+    if q ≤ ex then sig * 2 ^ (ex - q).toNat else
+    let sh := (q - ex).toNat
+    let n0 := sig / 2 ^ sh
+    let rem := sig % 2 ^ sh
+    let half := 2 ^ (sh - 1)
+    if rem > half ∨ (rem = half ∧ n0 % 2 = 1) then n0 + 1 else n0
+  let code : Nat := if ue ≥ 1 - B then ((ue + B).toNat * 2 ^ mb + n) - 2 ^ mb else n
+  if code ≥ infc then none else some (signBit + code)
+
+/-- `float2bitstore` (bitstore_helpers.py:238) on an arbitrary Python float given by its float64 pattern:
+    `try: struct.pack(fmt, f)  except OverflowError: struct.pack(fmt, ±inf)`. -/
+def float2bitstoreD (p64 : Nat) (len : Nat) (big : Bool) : Bits :=
+  match roundF64 len p64 with
+  | some p => float2bitstore p len big
+  | none =>
+    let eb := (fmtBits len).1
+    let mb := (fmtBits len).2
+    float2bitstore ((p64 / 2 ^ 63 % 2) * 2 ^ (eb + mb) + (2 ^ eb - 1) * 2 ^ mb) len big
+
+/-- The pattern at `len` bits that `float2bitstore` stores for the float64 pattern `p64` (±inf on overflow), so that
+    `float2bitstoreD p64 len big = float2bitstore (storedPattern len p64) len big`. -/
+def storedPattern (len : Nat) (p64 : Nat) : Nat :=
+  match roundF64 len p64 with
+  | some p => p
+  | none => (p64 / 2 ^ 63 % 2) * 2 ^ ((fmtBits len).1 + (fmtBits len).2) + (2 ^ (fmtBits len).1 - 1) * 2 ^ (fmtBits len).2
+
 /-- `Dtype.build(value)` (dtypes.py:174): the definition's `set_fn` with `length=`, then the length check.
     `_setuint` / `_setint` / `_setuintbe` / `_setintbe` / `_setuintle` / `_setintle` (bits.py) reject
     `length == 0`, the four endian-specific ones also a length that is not a whole number of bytes;
@@ -798,6 +847,20 @@ def valsOfWire? (s : String) : Option (List Val) :=
 def valsToWire (vs : List Val) : String :=
   if vs.isEmpty then "-" else ",".intercalate (vs.map Val.toWire)
 
+/-- A value token that may be a float64 pattern `d<hex>`, packed at `len` bits. -/
+def valOfWireD? (len : Nat) (s : String) : Option Val :=
+  match s.toList with
+  | 'd' :: r => (natOfHex? r).map fun p => .flt (storedPattern len p)
+  | _ => valOfWire? s
+
+def valsOfWireD? : List Char → List String → Option (List Val)
+  | c :: cs, t :: ts => do
+    let v ← valOfWireD? (8 * ((structKindSize c).map (·.2)).getD 0) t
+    let r ← valsOfWireD? cs ts
+    pure (v :: r)
+  | _, [] => some []
+  | [], ts => ts.mapM valOfWire?
+
 def fmtOfWire? (s : String) : Option Fmt :=
   if s = "None" then some .none else
   match s.splitOn ":" with
@@ -825,6 +888,21 @@ def handle (args : List String) : String :=
     match valsOfWire? vals with
     | some vs => res (fun b => hexOfBytes (toBytes b)) (pack fmt vs)
     | none => "bad-op"
+  | ["packd", fmt, vals] =>
+    -- float values are float64 patterns `d<hex>`: `float2bitstore` rounds them with `struct.pack` (overflow → ±inf)
+    match matchStructFmt fmt with
+    | none => "err"
+    | some (_, codes) =>
+      match valsOfWireD? codes (if vals = "-" then [] else vals.splitOn ",") with
+      | some vs => res (fun b => hexOfBytes (toBytes b)) (pack fmt vs)
+      | none => "bad-op"
+  | ["arrd", dt, vals] =>
+    match setDtype dt with
+    | .error _ => "err"
+    | .ok d =>
+      match (if vals = "-" then [] else vals.splitOn ",").mapM (valOfWireD? d.length) with
+      | some vs => res (fun b => hexOfBytes (toBytes b)) (arrayBuild d vs)
+      | none => "bad-op"
   | ["unpack", fmt, hex] =>
     match bytesOfWire? hex with
     | some d => res valsToWire (unpack fmt (bitsOfBytes d))
